@@ -95,7 +95,7 @@ func modelClass(s string) string {
 func us(s string) string { return strings.ReplaceAll(s, " ", "_") }
 
 func run(r *hx.Result, cfg hx.Config) {
-	r.Rule = "every command name that occurs in any regenerated table (dispatch, lock table, script tables, deny list) plus hello/timeout/ping, one argument shape each, sent on a fresh connection to real servers in the modes leader / read-only / follower-never-caught-up / follower-caught-up / requirepass-unauthenticated / requirepass-authenticated; direct, TIMEOUT-wrapped and through tile38.call in EVAL/EVALRO/EVALNA; the reply class (gate error vs handler ran) is compared with the extracted gate model; oracles: a follower / read-only / unauthenticated connection leaves the dump unchanged, object reads are refused on a never-caught-up follower, wrong passwords never authenticate, a non-loopback peer is refused before any read in protected mode. non-trivial = distinct (mode, wrapping, command) where the model predicts a gate refusal or the command changes data."
+	r.Rule = "every command name that occurs in any regenerated table (dispatch, lock table, script tables, deny list) plus hello/timeout/ping, one argument shape each, sent on a fresh connection to real servers in the modes leader / read-only / follower-never-caught-up / follower-caught-up / requirepass-unauthenticated / requirepass-authenticated; direct, TIMEOUT-wrapped and through tile38.call in EVAL/EVALRO/EVALNA; the reply class (gate error vs handler ran) is compared with the extracted gate model; oracles: a follower / read-only / unauthenticated connection leaves the dump unchanged, object reads are refused on a never-caught-up follower, wrong passwords never authenticate, a non-loopback peer is refused before any read in protected mode. Role state (roles.go, vs Model/RoleState.v): READONLY with every spelling of its argument on read-only and writable servers (+ restart); CONFIG SET protected-mode with every spelling / REWRITE / restart observed by a peer from 127.0.0.2; a scripted leader streams log records and PUBLISH messages to a real follower and stalls (read gate vs follow_session); READONLY yes queued behind a long reader while direct / EVAL / EVALNA writes are issued (no write may be applied once a reader saw read_only=true). non-trivial = distinct (mode, wrapping, command) where the model predicts a gate refusal or the command changes data."
 	r.Assumptions = []string{"reply classes are recognised by their error text", "t38x recognisers (tables are what the source says)"}
 	r.Exhaustive = true
 	drv, err := model.Start("gate")
@@ -530,5 +530,7 @@ func run(r *hx.Result, cfg hx.Config) {
 			r.Fail(hx.Failure{Kind: "oracle", Signature: "protected-mode-start", What: "could not start a server bound to all interfaces: " + err.Error()})
 		}
 	}
+	// the role the gates consult: READONLY / protected-mode spellings, caught-up accounting, role change vs writes
+	runRoles(r, cfg, drv)
 	lc.Close()
 }
